@@ -84,3 +84,56 @@ void h_ht_create(void)
 	VERIF_COVER(t != NULL, "created");
 	VERIF_COVER(t == NULL, "allocation failed");
 }
+
+#if HT_ORDER >= 7
+/* ---- displacement: find_closer_entry (reachable only for orders >= 7) -------------------------------
+ * "Inv with a hole at f": slot f is unreferenced and not part of the view (its stale key/value are ignored).
+ * The free position HT_F is a compile-time constant per unit: the table is rotation-symmetric (all index
+ * arithmetic is modulo N, the hash function is arbitrary), so one position stands for all - stated as an
+ * assumption in the evidence; positions 0 (wrap-around), N/2 and N-1 are run. */
+#ifndef HT_F
+#define HT_F 0
+#endif
+static inline _Bool ht_inv_hole(const struct ht_table *t, uint32_t f)
+{
+	struct ht_table tmp = *t;
+	tmp.s[f].key = HT_INVALID;
+	return ht_inv(&tmp) && ht_values_ok(&tmp);
+}
+static inline void *ht_lookup_hole(const struct ht_table *t, uint32_t f, ht_key_t k)
+{
+	struct ht_table tmp = *t;
+	tmp.s[f].key = HT_INVALID;
+	return ht_lookup(&tmp, k);
+}
+/* some entry within the 31 slots before f could be moved to f without leaving its home's hop range */
+static inline _Bool ht_movable_exists(const struct ht_table *t, uint32_t f)
+{
+	for (uint32_t d = 1; d < 32; d++) {
+		uint32_t cp = HT_WRAP(f - d);
+		for (uint32_t i = 0; i < d; i++)
+			if ((t->s[cp].hop_info >> i) & 1u) return 1;
+	}
+	return 0;
+}
+void h_ht_closer(void)
+{
+	struct ht_table T, T0;
+	ht_key_t k2;
+	const uint32_t f = HT_F;
+	__CPROVER_assume(ht_inv_hole(&T, f));
+	T0 = T;
+	uint32_t r = find_closer_entry_VT(T.s, f);
+	if (r == 0xffffffff) {
+		HT_ASSERT(1, ht_same(&T0, &T), "C17.closer.no-candidate-changes-nothing");
+		HT_ASSERT(2, !ht_movable_exists(&T0, f), "C17.closer.gives-up-only-when-no-entry-can-move");
+	} else {
+		HT_ASSERT(3, r < HT_N && HT_WRAP(f - r) >= 1 && HT_WRAP(f - r) <= 31, "C17.closer.hole-moves-closer-to-the-home");
+		HT_ASSERT(4, r < HT_N && ht_inv_hole(&T, r), "C17.closer.inv-preserved-with-the-new-hole");
+		HT_ASSERT(5, r < HT_N && ht_lookup_hole(&T0, f, k2) == ht_lookup_hole(&T, r, k2), "C17.closer.view-unchanged");
+	}
+	VERIF_COVER(r != 0xffffffff && HT_WRAP(f - r) == 31, "entry moved by 31 slots");
+	VERIF_COVER(r != 0xffffffff && HT_WRAP(f - r) == 1, "entry moved by one slot");
+	VERIF_COVER(r == 0xffffffff, "no candidate");
+}
+#endif
